@@ -843,7 +843,7 @@ theorem gov_bank (s : State) (c : ParamChange) : ((gov s c).getD s).bank = s.ban
   | some s' =>
     simp only [Option.getD]
     unfold gov at hg
-    cases c <;> simp only [] at hg <;> (try split at hg) <;> (try split at hg) <;>
+    cases c <;> simp only [] at hg <;> (try split at hg) <;>
       first
         | (simp only [Option.some.injEq] at hg; subst hg; rfl)
         | (simp only [reduceCtorEq] at hg)
